@@ -218,6 +218,8 @@ class VTKWriter:
             coords = self.mesh.coords[self.outputNodes]
             nnodes = coords.shape[0]
 
+            # pad local copies so that write() leaves the writer's state unchanged
+            nodalFields = {}
             for field in self.nodalFields:
                 fieldRecord = self.nodalFields[field]
                 for sphere in self.spheres:
@@ -227,19 +229,19 @@ class VTKWriter:
                                                       fieldRecord.fieldType,
                                                       fieldRecord.dataType)
                     
-                self.nodalFields[field] = fieldRecord
+                nodalFields[field] = fieldRecord
 
             if len(self.spheres) > 0:
                 nnodes = self.mesh.coords.shape[0]
                 vals = np.zeros( (nnodes,) )
                 vals = np.hstack( (vals, np.array(self.sphereRadii) ) )
-                self.nodalFields['sphere_radius'] = self.VTKFieldRecord(vals.reshape(vals.shape[0],1),
-                                                                        VTKFieldType.SCALARS,
-                                                                        VTKDataType.DOUBLE)
+                nodalFields['sphere_radius'] = self.VTKFieldRecord(vals.reshape(vals.shape[0],1),
+                                                                   VTKFieldType.SCALARS,
+                                                                   VTKDataType.DOUBLE)
         
                 
             vtkFile.write('POINT_DATA {}\n'.format(nnodes + len(self.spheres)))
-            self._write_out_all_fields_in_dict(self.nodalFields, vtkFile)
+            self._write_out_all_fields_in_dict(nodalFields, vtkFile)
             
         
     def _write_cell_fields(self, vtkFile):
